@@ -181,6 +181,19 @@ pub fn gen_c15(rng: &mut Rng, thorough: bool) -> Vec<Tagged> {
         let mut b2 = b.clone();
         b2.push(t1(vec![1.0]));
         out.push(("nested-add-mismatch".into(), Case::NestedAdd(a.clone(), b2)));
+        // same number of elements and same ranks, but one element differs in an extent: refused as well
+        {
+            let sa = vec![Shape::Single(3), Shape::Double(2, 3), Shape::Triple(1, 2, 2)];
+            let sb = [vec![Shape::Single(5), Shape::Double(2, 3), Shape::Triple(1, 2, 2)],
+                      vec![Shape::Single(3), Shape::Double(2, 2), Shape::Triple(1, 2, 2)],
+                      vec![Shape::Single(3), Shape::Double(2, 3), Shape::Triple(2, 2, 2)],
+                      vec![Shape::Single(2), Shape::Double(3, 3), Shape::Triple(1, 2, 1)]];
+            let k = rng.below(4);
+            let a2: Vec<Tensor> = sa.iter().map(|s| rand_tensor(rng, s, 1)).collect();
+            let b3: Vec<Tensor> = sb[k].iter().map(|s| rand_tensor(rng, s, 1)).collect();
+            out.push(("nested-add-inner-extent-mismatch".into(), Case::NestedAdd(a2.clone(), b3.clone())));
+            out.push(("nested-add-inner-extent-mismatch".into(), Case::NestedAdd(b3, a2)));
+        }
         // products
         let (m, k) = (rng.range(1, 5), rng.range(1, 5));
         for kind in [0u8, 2, 3] {
